@@ -58,7 +58,7 @@ tb_table = "\n".join(tb_rows)
 built = built.replace("<<TRUSTED_BASE_TABLE>>", tb_table)
 try:
     chk = open(f"{R}/trusted_base/coqchk.txt").read()
-    tail = chk[-3500:]
+    tail = chk
     built = built.replace("<<COQCHK>>", "```\n" + tail + "\n```")
 except Exception:
     built = built.replace("<<COQCHK>>", "(`tools/coqchk_all.sh` has not been run yet on this tree)")
